@@ -17,6 +17,7 @@ from ast import (
     arguments,
 )
 from collections import OrderedDict
+from copy import deepcopy
 from functools import partial
 from itertools import chain
 from textwrap import indent
@@ -354,7 +355,13 @@ def class_(
 
     param_names = frozenset(intermediate_repr["params"].keys())
     if returns:
-        intermediate_repr["params"].update(returns)
+        # Fold the return entry into a copy, the caller's IR is left as it was given
+        intermediate_repr = dict(
+            intermediate_repr,
+            params=OrderedDict(
+                chain(intermediate_repr["params"].items(), returns.items())
+            ),
+        )
         del intermediate_repr["returns"]
 
     internal_body = intermediate_repr.get("_internal", {}).get("body", [])
@@ -366,7 +373,7 @@ def class_(
             internal_body = list(
                 map(
                     ast.fix_missing_locations,
-                    map(RewriteName(param_names).visit, internal_body),
+                    map(RewriteName(param_names).visit, deepcopy(internal_body)),
                 )
             )
         elif (returns or {"return_type": None}).get("return_type") is not None:
